@@ -46,7 +46,10 @@ pub fn run(k: &str, c: &Value) -> Value {
                 let wm = mesh.project_with_max_dist(q, md).map(|(prj, id, l)| json!({"p": hp3(&prj.point), "inside": prj.is_inside, "id": id, "loc": loc(&l)}));
                 let wt = mesh.project_with_tol(q, md, ma, None).map(|(prj, id, _)| json!({"p": hp3(&prj.point), "id": id}));
                 let wtt = mesh.project_with_tol(q, md, ma, Some(&Iso3::identity())).map(|(prj, id, _)| json!({"p": hp3(&prj.point), "id": id}));
-                json!({"surf": spv, "closest": hp3(&pc), "max": wm, "tol": wt, "tol_id": wtt})
+                // geom3/mesh/measurement.rs: the point-mode deviation reports the same distance
+                let dev = std::panic::catch_unwind(std::panic::AssertUnwindSafe(|| { let m = mesh.measure_point_deviation(q, engeom::common::DistMode::ToPoint);
+                    json!({"a": hp3(&m.a), "dir": hv3(&m.direction.into_inner()), "value": hx(engeom::metrology::Measurement::value(&m))}) })).unwrap_or(json!({"panic": true}));
+                json!({"surf": spv, "closest": hp3(&pc), "max": wm, "tol": wt, "tol_id": wtt, "dev": dev})
             }).collect();
             let idx = mesh.indices_in_tol(&qs, md, ma, None);
             // the same cloud expressed in another frame together with the transform into the mesh's frame
